@@ -31,9 +31,11 @@ def WF (s : St) : Prop := s.sessions.Nodup ∧ ∀ a ∈ s.sessions, a < s.nextS
 private theorem nodup_filter {α} (p : α → Bool) (l : List α) (h : l.Nodup) : (l.filter p).Nodup :=
   List.Nodup.sublist List.filter_sublist h
 
-private theorem wf_del (s : St) (a : Nat) (h : WF s) (st : List Nat) :
-    WF { s with sessions := s.sessions.filter (· ≠ a), streams := st } :=
-  ⟨nodup_filter _ _ h.1, fun x hx => h.2 x (List.mem_filter.mp hx).1⟩
+private theorem wf_del (s : St) (a : Nat) (h : WF s) (s' : St) (h1 : s'.sessions = s.sessions.filter (· ≠ a))
+    (h2 : s'.nextSid = s.nextSid) : WF s' := by
+  unfold WF
+  rw [h1, h2]
+  exact ⟨nodup_filter _ _ h.1, fun x hx => h.2 x (List.mem_filter.mp hx).1⟩
 
 private theorem wf_new (s : St) (h : WF s) (st : List Nat) :
     WF { s with nextSid := s.nextSid + 1, sessions := s.sessions ++ [s.nextSid], streams := st } := by
@@ -69,9 +71,16 @@ private theorem step_frames (srv : Server) (f : Facts) (s : St) (op : Op) (hw : 
   | delSession a =>
     simp only [step]
     split
-    · exact ⟨wf_del s a hw _, [], by simp, Or.inr (Or.inr (Or.inr rfl))⟩
+    · exact ⟨wf_del s a hw _ rfl rfl, [], by simp, Or.inr (Or.inr (Or.inr rfl))⟩
     · exact ⟨hw, [], by simp, Or.inr (Or.inr (Or.inr rfl))⟩
   | openStream a =>
+    simp only [step]
+    split
+    · split
+      · exact ⟨hw, [], by simp, Or.inr (Or.inr (Or.inr rfl))⟩
+      · exact ⟨hw, [], by simp, Or.inr (Or.inr (Or.inr rfl))⟩
+    · exact ⟨hw, [], by simp, Or.inr (Or.inr (Or.inr rfl))⟩
+  | breakStream a =>
     simp only [step]
     split
     · split
@@ -82,7 +91,7 @@ private theorem step_frames (srv : Server) (f : Facts) (s : St) (op : Op) (hw : 
     simp only [step]
     split
     · exact ⟨hw, [], by simp, Or.inr (Or.inr (Or.inr rfl))⟩
-    · exact ⟨wf_del s a hw _, [], by simp, Or.inr (Or.inr (Or.inr rfl))⟩
+    · exact ⟨wf_del s a hw _ rfl rfl, [], by simp, Or.inr (Or.inr (Or.inr rfl))⟩
     · exact ⟨hw, [], by simp, Or.inr (Or.inr (Or.inr rfl))⟩
   | send a m =>
     simp only [step]
@@ -113,7 +122,9 @@ private theorem step_frames (srv : Server) (f : Facts) (s : St) (op : Op) (hw : 
         · exact ⟨hw, [], by simp, Or.inr (Or.inr (Or.inr rfl))⟩
         · split
           · exact ⟨hw, [], by simp, Or.inr (Or.inr (Or.inr rfl))⟩
-          · exact ⟨hw, [(a, ⟨.req, a, m⟩)], rfl, Or.inr (Or.inl ⟨a, m, rfl, by simp [opTags]⟩)⟩
+          · split
+            · exact ⟨hw, [], by simp, Or.inr (Or.inr (Or.inr rfl))⟩
+            · exact ⟨hw, [(a, ⟨.req, a, m⟩)], rfl, Or.inr (Or.inl ⟨a, m, rfl, by simp [opTags]⟩)⟩
   | postAnswer p idw payload =>
     simp only [step]
     split
@@ -315,7 +326,9 @@ theorem C05_request_delivered_iff_issued (srv : Server) (f : Facts) (s : St) (a 
       · exact Or.inr ⟨⟨_, rfl⟩, rfl, rfl⟩
       · split
         · exact Or.inr ⟨⟨_, rfl⟩, rfl, rfl⟩
-        · exact Or.inl ⟨_, rfl, rfl, _, rfl⟩
+        · split
+          · exact Or.inr ⟨⟨_, rfl⟩, rfl, rfl⟩
+          · exact Or.inl ⟨_, rfl, rfl, _, rfl⟩
 
 /-! ## broadcast / filtered accounting -/
 
@@ -349,11 +362,12 @@ private theorem count_unreached (l : List Nat) (a m : Nat) (ha : a ∉ l) :
   simp [this]
 
 /-- **Broadcast count** (Streamable, stateful): `BroadcastNotification` returns as its count the number of active sessions
-    that have an open stream; exactly those sessions gain exactly one frame, tagged with this send and addressed to them,
+    that have an open stream whose write succeeds (`reaches`: a session whose stream is registered but fails its writes is
+    one failure, it does not hide the sessions after it); exactly those sessions gain exactly one frame, tagged with this send and addressed to them,
     and no other stream gains anything. (When every session fails the call returns 0 and an error — 0 is again the number
     reached.) -/
 theorem C05_broadcast_count (f : Facts) (s : St) (m : Nat) (hw : WF s) :
-    let reached := s.sessions.filter (hasStream s)
+    let reached := s.sessions.filter (reaches s)
     let r := step (.streamable false) f s (.broadcast m)
     (r.2 = .count reached.length none ∨ (r.2 = .count 0 (some .allFailed) ∧ reached.length = 0)) ∧
     r.1.delivered = s.delivered ++ reached.map (fun a => (a, ⟨.notif, a, m⟩)) ∧
@@ -375,11 +389,12 @@ theorem C05_broadcast_count (f : Facts) (s : St) (m : Nat) (hw : WF s) :
   · intro a ha; exact count_reached reached a m hnd ha
   · intro a ha; exact count_unreached reached a m ha
 
-/-- **Filtered count**: `SendFilteredNotification` reports (reached, failed) = (selected sessions with an open stream,
-    selected sessions without); exactly the reached ones gain one frame each. -/
+/-- **Filtered count**: `SendFilteredNotification` reports (reached, failed) = (selected sessions with an open stream whose
+    write succeeds, the other selected sessions — no stream, or a stream whose write fails); exactly the reached ones gain
+    one frame each. -/
 theorem C05_filtered_count (f : Facts) (s : St) (sl : List Nat) (m : Nat) (hw : WF s) :
     let chosen := s.sessions.filter (sl.contains ·)
-    let reached := chosen.filter (hasStream s)
+    let reached := chosen.filter (reaches s)
     let r := step (.streamable false) f s (.filtered sl m)
     (r.2 = .counts reached.length (chosen.length - reached.length) none ∨
       (r.2 = .counts 0 (chosen.length - reached.length) (some .allFailed) ∧ reached.length = 0)) ∧
@@ -396,6 +411,21 @@ theorem C05_filtered_count (f : Facts) (s : St) (sl : List Nat) (m : Nat) (hw : 
       right; exact ⟨rfl, hc.2⟩
     · left; rfl
   · intro a ha; exact count_reached reached a m hnd ha
+
+/-- **A session whose stream fails its writes does not hide the others**: whatever sessions are broken, every healthy
+    selected session with an open stream is among the reached ones of a broadcast (it gains its one frame and is counted),
+    and no broken or stream-less session is. -/
+theorem C05_broadcast_reaches_every_healthy (f : Facts) (s : St) (m a : Nat) (ha : a ∈ s.sessions) :
+    (hasStream s a = true ∧ s.broken.contains a = false ↔ a ∈ s.sessions.filter (reaches s)) ∧
+    ((step (.streamable false) f s (.broadcast m)).1.delivered = s.delivered ++ (s.sessions.filter (reaches s)).map (fun b => (b, ⟨.notif, b, m⟩))) := by
+  refine ⟨?_, rfl⟩
+  simp [reaches, List.mem_filter, ha]
+
+/-- a send to a session whose stream fails its writes reports the failure and writes nothing. -/
+theorem C05_send_to_broken_stream (f : Facts) (s : St) (a m : Nat) (h1 : hasStream s a = true) (h2 : s.broken.contains a = true) :
+    step (.streamable false) f s (.send a m) = (s, .err .writeFailed) := by
+  have h2' : a ∈ s.broken := List.contains_iff_mem.mp h2
+  simp [step, canNotify, h1, h2']
 
 /-! ## who may answer -/
 
@@ -465,6 +495,11 @@ private theorem ainv_step (srv : Server) (f : Facts) (hf : f.answerChecksSession
     split
     · split <;> exact keep _ rfl rfl
     · exact keep _ rfl rfl
+  | breakStream a =>
+    simp only [step]
+    split
+    · split <;> exact keep _ rfl rfl
+    · exact keep _ rfl rfl
   | closeStream a => simp only [step]; split <;> exact keep _ rfl rfl
   | send a m =>
     simp only [step]
@@ -483,12 +518,14 @@ private theorem ainv_step (srv : Server) (f : Facts) (hf : f.answerChecksSession
         · exact keep _ rfl rfl
         · split
           · exact keep _ rfl rfl
-          · refine ⟨?_, hi.res⟩
-            intro e he p pl hs
-            simp only [List.mem_append, List.mem_singleton] at he
-            rcases he with he | he
-            · exact hi.slot e he p pl hs
-            · subst he; simp at hs
+          · split
+            · exact keep _ rfl rfl
+            · refine ⟨?_, hi.res⟩
+              intro e he p pl hs
+              simp only [List.mem_append, List.mem_singleton] at he
+              rcases he with he | he
+              · exact hi.slot e he p pl hs
+              · subst he; simp at hs
   | postAnswer p idw payload =>
     simp only [step]
     split
@@ -665,6 +702,11 @@ private theorem waiting_step (srv : Server) (f : Facts) (hf : f.deferredDelete =
     split
     · split <;> exact h
     · exact h
+  | breakStream a =>
+    simp only [step]
+    split
+    · split <;> exact h
+    · exact h
   | closeStream a => simp only [step]; split <;> exact h
   | send a m =>
     simp only [step]
@@ -683,7 +725,9 @@ private theorem waiting_step (srv : Server) (f : Facts) (hf : f.deferredDelete =
         · exact h
         · split
           · exact h
-          · simp [h]
+          · split
+            · exact h
+            · simp [h]
   | postAnswer p idw payload =>
     simp only [step]
     split
@@ -779,6 +823,14 @@ example :
       [.newSession, .newSession, .newSession, .openStream 0, .openStream 2, .broadcast 10, .send 1 11, .filtered [1, 2] 12, .send 2 13]
     r.2 = [.sid 0, .sid 1, .sid 2, .ok, .ok, .count 2 none, .err .noStream, .counts 1 1 none, .ok] ∧
     outboxTags r.1 0 .notif = [10] ∧ outboxTags r.1 1 .notif = [] ∧ outboxTags r.1 2 .notif = [10, 12, 13] := by decide
+
+-- six sessions, two of them with a stream that fails its writes, one without a stream: a broadcast reaches the three healthy ones
+example :
+    let r := run (.streamable false) ⟨true, true, true, true⟩ (init (.streamable false) 0)
+      [.newSession, .newSession, .newSession, .newSession, .newSession, .newSession, .openStream 0, .breakStream 1, .openStream 2,
+       .breakStream 3, .openStream 4, .broadcast 10, .filtered [1, 2, 5] 11, .send 1 12, .openStream 1, .send 1 13]
+    r.2 = [.sid 0, .sid 1, .sid 2, .sid 3, .sid 4, .sid 5, .ok, .ok, .ok, .ok, .ok, .count 3 none, .counts 1 2 none, .err .writeFailed, .ok, .ok] ∧
+    outboxTags r.1 0 .notif = [10] ∧ outboxTags r.1 1 .notif = [13] ∧ outboxTags r.1 2 .notif = [10, 11] ∧ outboxTags r.1 3 .notif = [] := by decide
 
 -- stdio: a request answered by the one session; nothing pending afterwards
 example :
